@@ -35,6 +35,7 @@ type synFail struct {
 	Row    [2]int `json:"row"`
 	MinRow [2]int `json:"minrow"`
 	Kind   string `json:"kind"`
+	Sig    string `json:"sig"`
 	Detail string `json:"detail,omitempty"`
 	Out    string `json:"out,omitempty"`
 }
@@ -367,8 +368,8 @@ func subNodeChecks(f, re *syntax.File, lang syntax.LangVariant, row [2]int, fail
 			fail(ln, row, "sub-reparse-error", fmt.Sprintf("Stmt: %v (%d stmts)", err, len(g.Stmts)), string(out))
 			continue
 		}
-		if !reflect.DeepEqual(Abs(g.Stmts[0]), Abs(s2[i])) {
-			fail(ln, row, "sub-tree-changed", "Stmt", string(out))
+		if a, b := Abs(s2[i]), Abs(g.Stmts[0]); !reflect.DeepEqual(a, b) {
+			fail(ln, row, "sub-tree-changed", "Stmt: "+sigTreeDiff(a, b), string(out))
 		}
 	}
 	for i, c := range c1 {
@@ -382,8 +383,8 @@ func subNodeChecks(f, re *syntax.File, lang syntax.LangVariant, row [2]int, fail
 			fail(ln, row, "sub-reparse-error", fmt.Sprintf("Command: %v", err), string(out))
 			continue
 		}
-		if !reflect.DeepEqual(Abs(g.Stmts[0].Cmd), Abs(c2[i])) {
-			fail(ln, row, "sub-tree-changed", "Command", string(out))
+		if a, b := Abs(c2[i]), Abs(g.Stmts[0].Cmd); !reflect.DeepEqual(a, b) {
+			fail(ln, row, "sub-tree-changed", "Command: "+sigTreeDiff(a, b), string(out))
 		}
 	}
 	for i, w := range w1 {
@@ -416,15 +417,16 @@ func hasKind(fs []synFail, kind string) bool {
 
 // checkRow prints f with one option row and checks C01 (tree), C02 (idempotency), C05 (comments).
 func checkRow(f *syntax.File, src []byte, srcComments []string, lang syntax.LangVariant, row [2]int, v *synVec, absEqual bool) (fails []synFail) {
-	fail := func(kind, detail, out string) {
+	failSig := func(kind, sig, detail, out string) {
 		if len(out) > 2000 {
 			out = out[:2000]
 		}
 		if len(detail) > 3000 {
 			detail = detail[:3000]
 		}
-		fails = append(fails, synFail{Kind: kind, Detail: detail, Out: hlib.Latin1([]byte(out))})
+		fails = append(fails, synFail{Kind: kind, Sig: sig, Detail: detail, Out: hlib.Latin1([]byte(out))})
 	}
+	fail := func(kind, detail, out string) { failSig(kind, detail, detail, out) }
 	minify, single, keepPad := row[1]&32 != 0, row[1]&64 != 0, row[1]&8 != 0
 	var buf bytes.Buffer
 	perr := syntax.NewPrinter(printerOpts(row)...).Print(&buf, f)
@@ -441,7 +443,7 @@ func checkRow(f *syntax.File, src []byte, srcComments []string, lang syntax.Lang
 	out := buf.Bytes()
 	re, err := parseSrc(out, lang)
 	if err != nil {
-		fail("reparse-error", err.Error(), string(out))
+		failSig("reparse-error", sigParseError(err.Error(), string(out)), err.Error(), string(out))
 		return
 	}
 	reAbs := Abs(re)
@@ -455,13 +457,13 @@ func checkRow(f *syntax.File, src []byte, srcComments []string, lang syntax.Lang
 	}
 	if want != nil && !reflect.DeepEqual(reAbs, want) {
 		d, _ := json.Marshal(reAbs)
-		fail("tree-changed", string(d), string(out))
+		failSig("tree-changed", sigTreeDiff(want, reAbs), string(d), string(out))
 	}
 	// C05: comments
 	reComments := comments(re)
 	if !minify {
 		if !reflect.DeepEqual(srcComments, reComments) {
-			fail("comments-changed", fmt.Sprintf("%q -> %q", srcComments, reComments), string(out))
+			failSig("comments-changed", sigComments(string(src), srcComments, reComments), fmt.Sprintf("%q -> %q", srcComments, reComments), string(out))
 		}
 	} else {
 		var wantC []string
@@ -478,11 +480,17 @@ func checkRow(f *syntax.File, src []byte, srcComments []string, lang syntax.Lang
 		if err := syntax.NewPrinter(printerOpts(row)...).Print(&buf2, re); err != nil {
 			fail("reprint-error", err.Error(), string(out))
 		} else if !bytes.Equal(buf2.Bytes(), out) {
-			fail("not-idempotent", buf2.String(), string(out))
+			failSig("not-idempotent", sigDiffText(string(out), buf2.String()), buf2.String(), string(out))
 		}
 	}
 	if v.Sub {
-		subNodeChecks(f, re, lang, row, func(_ string, _ [2]int, kind, detail, out string) { fail(kind, detail, out) })
+		subNodeChecks(f, re, lang, row, func(_ string, _ [2]int, kind, detail, out string) {
+			sig := detail
+			if i := strings.Index(detail, ": "); i > 0 && kind == "sub-reparse-error" {
+				sig = detail[:i] + ": " + sigParseError(detail[i+2:], out)
+			}
+			failSig(kind, sig, detail, out)
+		})
 	}
 	return
 }
